@@ -299,8 +299,8 @@ def rules(rep, m):
                   "unsatisfied one)", floor=1)
     gs = m.need("cmb_resourceguard_signal")
     gx = FuncCtx(m, gs)
-    loops = [x for x in walk(gs.body) if x["kind"] == "WhileStmt" and "observers" in gx.canon(kids(x)[0])
-             or (x["kind"] == "WhileStmt" and "->next" in gx.canon(kids(x)[0]))]
+    # any loop (while / for / do) in the routine that calls something with an observer as argument
+    loops = [x for x in walk(gs.body) if x["kind"] in ("WhileStmt", "ForStmt", "DoStmt")]
     fwd = []
     for lp in loops:
         for c in walk(lp):
